@@ -100,6 +100,8 @@ def shape_of(x: Any, law: str, detail: str, data: bytes) -> str:
             pass
     if isinstance(x, Flow) and len(data) >= 256 + 2:
         return 'length>=256'
+    if name == 'GenericAttribute' and len(data) >= 4 and data[0] & 0x10 and int.from_bytes(data[2:4], 'big') <= 255:
+        return 'explicit-extended-length-flag'
     if name == 'GenericAttribute' and len(data) > 258 and data[0] & 0x10:
         return 'extended-length-flag'
     if name == 'ASPath' and law == 'unpack(pack(x))!=x':
